@@ -273,12 +273,15 @@ def impl_validate(ctx, traces, consts, max_scen, max_groups, per_group, max_line
         total -= 1
     stats = {"recorded": len(order), "eligible": len(elig), "ineligible": why, "groups_available": len(groups),
              "groups": len(chosen), "scenarios": total, "features_covered": sorted(covered), "accepted": 0, "lines": 0, "states": 0, "tlc_starts": 0, "wall_s": 0.0,
-             "drift": [], "errors": [], "model_monitor_bad": []}
+             "drift": [], "errors": [], "model_monitor_bad": [], "not_examined_after_drift": 0}
 
     def one(gi, key, ks):
-        out = {"accepted": [], "drift": [], "errors": [], "lines": 0, "states": 0, "starts": 0, "bad": []}
+        out = {"accepted": [], "drift": [], "errors": [], "lines": 0, "states": 0, "starts": 0, "bad": [], "skipped": 0}
         rest = list(ks)
         while rest:
+            if len(out["drift"]) >= 3:     # a tree on which file after file drifts: the point is made, keep the run short
+                out["skipped"] = len(rest)
+                break
             u = {x: [] for x in ILISTS}
             for k in rest:
                 for x in ILISTS:
@@ -324,18 +327,20 @@ def impl_validate(ctx, traces, consts, max_scen, max_groups, per_group, max_line
             out["accepted"] += [x for x, _, _ in spans[:j]]
             out["lines"] += a - 1
             at = hwm - a + 1
-            # once more alone and without the look-ahead (bounded): the line whose own conditions fail
-            f1 = os.path.join(ctx.work, "impl-%d-drift%d.ndjson" % (gi, len(out["drift"])))
-            with open(f1, "w") as w:
-                for i, (ln, r) in enumerate(scen[k]):
-                    w.write(json.dumps(dict(r, **{x: icfgs[k][x] for x in ILISTS})) + "\n" if i == 0 else ln)
-            r1 = ctx.tlc(S, "Trace_SpanEndImpl", "Trace_SpanEndImpl.cfg", workers=1, deque=True, timeout=90, heap="2g",
-                         defines=dict(consts, AHEAD="FALSE"), extra_files={"trace.ndjson": f1},
-                         name="impl-%d-drift%d" % (gi, len(out["drift"])), must_pass=False, count=False)
-            out["starts"] += 1
-            h1 = [int(pr.split()[1]) for pr in r1["prints"] if isinstance(pr, str) and pr.startswith("HWM ")]
-            if h1 and not (r1["timed_out"] or r1["error"] or r1["violated"]) and h1[0] <= len(scen[k]):
-                at = h1[0]
+            # once more alone and without the look-ahead (bounded; the first drift of a group only): the line whose own
+            # conditions fail
+            if not out["drift"]:
+                f1 = os.path.join(ctx.work, "impl-%d-drift.ndjson" % gi)
+                with open(f1, "w") as w:
+                    for i, (ln, r) in enumerate(scen[k]):
+                        w.write(json.dumps(dict(r, **{x: icfgs[k][x] for x in ILISTS})) + "\n" if i == 0 else ln)
+                r1 = ctx.tlc(S, "Trace_SpanEndImpl", "Trace_SpanEndImpl.cfg", workers=1, deque=True, timeout=90, heap="2g",
+                             defines=dict(consts, AHEAD="FALSE"), extra_files={"trace.ndjson": f1},
+                             name="impl-%d-drift" % gi, must_pass=False, count=False)
+                out["starts"] += 1
+                h1 = [int(pr.split()[1]) for pr in r1["prints"] if isinstance(pr, str) and pr.startswith("HWM ")]
+                if h1 and not (r1["timed_out"] or r1["error"] or r1["violated"]) and h1[0] <= len(scen[k]):
+                    at = h1[0]
             ev = scen[k][min(at, len(scen[k])) - 1][1]
             out["drift"].append({"scenario": "%s/%d" % k, "name": cfgs[k].get("name", ""), "line_in_scenario": at,
                                  "first_offending_line": ev, "line_with_lookahead": hwm - a + 1,
@@ -356,6 +361,7 @@ def impl_validate(ctx, traces, consts, max_scen, max_groups, per_group, max_line
         stats["drift"] += o["drift"]
         stats["errors"] += o["errors"]
         stats["model_monitor_bad"] += o["bad"]
+        stats["not_examined_after_drift"] += o["skipped"]
     stats["drift_count"] = len(stats["drift"])
     stats["drift"] = stats["drift"][:5]
     stats["errors"] = stats["errors"][:3]
@@ -714,7 +720,7 @@ def run(ctx):
     # only if nothing of the sample could be explained at all.
     consts = {"SHAPE": shape, "ALLOWKNOWN": "TRUE" if known_model else "FALSE", "MSHAPE": ms if ms != "unknown" else "locked",
               "PSHAPE": ps if ps != "unknown" else "locked", "PRECHECK": "TRUE" if precheck else "FALSE", "UNREGSHAPE": unreg}
-    lim = dict(max_scen=100000, max_groups=1000, per_group=100000, max_lines=600, timeout=900) if thorough else \
+    lim = dict(max_scen=3000, max_groups=1000, per_group=300, max_lines=600, timeout=900) if thorough else \
         dict(max_scen=120, max_groups=8, per_group=25, max_lines=250, timeout=120)
     iv = impl_validate(ctx, [(tf, label) for tf, label in traces if label in ("scripts", "random")], consts, **lim)
     ctx.extra["impl_trace"] = {"scenarios": iv["scenarios"], "accepted": iv["accepted"], "drift": iv["drift"],
